@@ -1,7 +1,7 @@
 use rusty_common::*;
 use rusty_parser::{
     ConditionalBlock, DoLoop, DoLoopConditionKind, DoLoopConditionPosition, Expression,
-    ExpressionPos, ForLoop, HasExpressionType, Statements,
+    ExpressionPos, ForLoop, HasExpressionType, Name, Statements, TypeQualifier,
 };
 use rusty_variant::Variant;
 
@@ -40,38 +40,32 @@ impl InstructionGenerator {
             statements,
             ..
         } = f;
-        // lower bound to A
-        self.generate_expression_instructions_casting(
-            lower_bound,
-            counter_var_name.expression_type(),
-        );
-        // A to variable
+        let counter_type = counter_var_name.expression_type();
+        let counter_q = counter_type
+            .opt_qualifier()
+            .unwrap_or(TypeQualifier::BangSingle);
+        // The upper bound and the step are kept in variables of their own, next to the counter
+        // (not in registers or on a stack): the body can leave the loop with GOTO, be entered
+        // with GOTO, call procedures that have loops of their own, or raise an error that is
+        // resumed, without disturbing this loop or the loops around it.
+        let limit = Self::hidden_variable_name("FOR limit", counter_q, pos);
+        // lower bound to the counter
+        self.generate_expression_instructions_casting(lower_bound, counter_type.clone());
         self.store_counter(&counter_var_name, pos);
-        // upper bound to A
-        self.generate_expression_instructions_casting(
-            upper_bound,
-            counter_var_name.expression_type(),
-        );
-        // load the step expression
+        // upper bound to the limit
+        self.generate_expression_instructions_casting(upper_bound, counter_type);
+        self.store_hidden_variable(&limit, pos);
         match step {
             Some(s) => {
                 let step_pos = s.pos();
-                // keep the upper bound on the value stack while the step is evaluated
-                // (the step might call a function that has a FOR loop of its own)
-                self.push(Instruction::PushAToValueStack, pos);
-                // load step to A
+                let step_q = s.expression_type().opt_qualifier().unwrap_or(counter_q);
+                let step_name = Self::hidden_variable_name("FOR step", step_q, pos);
+                // the step is kept as it was evaluated (only the sum is converted to the type of the counter)
                 self.generate_expression_instructions(s);
-                // A to D (step is in D)
-                self.push(Instruction::CopyAToD, pos);
-                // upper bound to C
-                self.push(Instruction::PopValueStackIntoA, pos);
-                self.push(Instruction::CopyAToC, pos);
-                // load 0 to B (after the step, because evaluating the step might use B)
-                self.push_load(Variant::VInteger(0), pos);
-                self.push(Instruction::CopyAToB, pos);
-                // step back to A
-                self.push(Instruction::CopyDToA, pos);
+                self.store_hidden_variable(&step_name, pos);
                 // is step <> 0 ?
+                self.push(Instruction::CopyAToB, pos);
+                self.push_load(Variant::VInteger(0), pos);
                 self.push(Instruction::NotEqual, pos);
                 self.jump_if_false("zero", pos);
                 // the direction of the loop is decided by the sign of the step at run time
@@ -79,7 +73,8 @@ impl InstructionGenerator {
                 self.generate_for_loop_instructions_positive_or_negative_step(
                     &counter_var_name,
                     statements,
-                    None,
+                    &limit,
+                    Some(&step_name),
                     pos,
                 );
                 // Zero step
@@ -88,15 +83,11 @@ impl InstructionGenerator {
                 self.label("out-of-for", pos);
             }
             None => {
-                // A to C (upper bound to C)
-                self.push(Instruction::CopyAToC, pos);
-                self.push_load(Variant::VInteger(1), pos);
-                // A to D (step is in D)
-                self.push(Instruction::CopyAToD, pos);
                 self.generate_for_loop_instructions_positive_or_negative_step(
                     &counter_var_name,
                     statements,
-                    Some(true),
+                    &limit,
+                    None,
                     pos,
                 );
                 self.label("out-of-for", pos);
@@ -108,45 +99,46 @@ impl InstructionGenerator {
         &mut self,
         counter_var_name: &Expression,
         statements: Statements,
-        // Some(true) for a step known to be positive, None if the sign is known only at run time
-        is_positive: Option<bool>,
+        limit: &Name,
+        // the variable that holds the step; without a STEP the step is 1
+        step: Option<&Name>,
         pos: Position,
     ) {
         let loop_label = "for-loop";
         // loop point
         self.label(loop_label, pos);
-        match is_positive {
-            Some(is_positive) => self.generate_for_loop_test(counter_var_name, is_positive, pos),
-            None => {
-                // is step (D) < 0 ?
+        match step {
+            None => self.generate_for_loop_test(counter_var_name, limit, true, pos),
+            Some(step) => {
+                // is step < 0 ?
                 self.push_load(Variant::VInteger(0), pos);
                 self.push(Instruction::CopyAToB, pos);
-                self.push(Instruction::CopyDToA, pos);
+                self.load_hidden_variable(step, pos);
                 self.push(Instruction::Less, pos);
                 self.jump_if_false("positive-step", pos);
-                self.generate_for_loop_test(counter_var_name, false, pos);
+                self.generate_for_loop_test(counter_var_name, limit, false, pos);
                 self.jump("step-tested", pos);
                 self.label("positive-step", pos);
-                self.generate_for_loop_test(counter_var_name, true, pos);
+                self.generate_for_loop_test(counter_var_name, limit, true, pos);
                 self.label("step-tested", pos);
             }
         }
         self.jump_if_false("out-of-for", pos);
 
-        // push registers
-        self.push(Instruction::PushRegisters, pos);
-
         // run loop body
         self.visit(statements);
 
-        // to be able to resume after an error at the last statement and then pop registers
+        // to be able to resume after an error at the last statement
         self.mark_statement_address();
-        self.push(Instruction::PopRegisters, pos);
 
-        // increment step
+        // increment: step to B
+        match step {
+            Some(step) => self.load_hidden_variable(step, pos),
+            None => self.push_load(Variant::VInteger(1), pos),
+        }
+        self.push(Instruction::CopyAToB, pos);
+        // counter to A
         self.load_counter(counter_var_name, pos);
-        // copy step from D to B
-        self.push(Instruction::CopyDToB, pos);
         self.push(Instruction::Plus, pos);
         // the sum takes the type of the counter, like an assignment would
         if let rusty_parser::ExpressionType::BuiltIn(q) = counter_var_name.expression_type() {
@@ -162,11 +154,13 @@ impl InstructionGenerator {
     fn generate_for_loop_test(
         &mut self,
         counter_var_name: &Expression,
+        limit: &Name,
         is_positive: bool,
         pos: Position,
     ) {
-        // upper bound from C to B
-        self.push(Instruction::CopyCToB, pos);
+        // upper bound to B
+        self.load_hidden_variable(limit, pos);
+        self.push(Instruction::CopyAToB, pos);
         // counter to A
         self.load_counter(counter_var_name, pos);
         if is_positive {
